@@ -1,7 +1,8 @@
 (* Character classes used by convert_string: `char::is_alphanumeric`, `is_uppercase`,
    `to_uppercase`, `to_lowercase`. Exact by arithmetic for ASCII; table-driven (generated
    from Rust's std and re-checked exhaustively on every run) for the finite non-ASCII
-   alphabet Sigma+ = [sigma_lo, sigma_hi]; every other code point is classified as
+   alphabet Sigma+ = the keys of the table ([sigma_lo, sigma_hi] closed under case mapping);
+   every other code point is classified as
    "other" (the model is not claimed faithful there). *)
 From XSG.Model Require Import Strings UnicodeTables.
 
@@ -37,5 +38,7 @@ Definition xid_continue (c : chr) : bool :=
   if is_ascii c then a_upper c || a_lower c || a_digit c || (c =? 95)
   else match tbl_find unicode_table c with Some i => ci_xid_continue i | None => false end.
 
-(* the alphabet on which the model is claimed faithful *)
-Definition in_sigma (c : chr) : bool := is_ascii c || ((sigma_lo <=? c) && (c <=? sigma_hi)).
+(* the alphabet on which the model is claimed faithful: ASCII and the keys of the table
+   (U+00A0..U+052F closed under the two case mappings) *)
+Definition in_sigma (c : chr) : bool :=
+  is_ascii c || match tbl_find unicode_table c with Some _ => true | None => false end.
